@@ -189,3 +189,44 @@ def wire(log):
                         "mds": cfg["mds"], "inflight": infl, "ndg": len(e["dgs"]),
                         "closing": e["st"]["state"] in END_STATES or e["st0"]["state"] in END_STATES})
     return out
+
+
+def cid(log):
+    pk = {}
+    for e in log:
+        if e["k"] == "pkt":
+            pk.setdefault(e["dg"], []).append(e)
+    first = {}
+    for e in log:
+        if e["k"] == "pkt" and e.get("scid") and e["ep"] not in first and e["type"] in ("initial", "handshake"):
+            first[e["ep"]] = e["scid"]
+    out = [{"ev": "init", "cid0_c": first.get("c", 0), "cid0_s": first.get("s", 0)}]
+    closed = set()
+    for e in log:
+        k = e["k"]
+        if k == "arr" and e["haskeys"]:
+            for f in pk[e["dg"]][e["idx"]].get("frames", []):
+                if f["t"] == "new_connection_id":
+                    out.append({"ev": "ncid", "ep": e["ep"], "seq": f["seq"], "rpt": f["rpt"], "cid": f["cid"]})
+                elif f["t"] == "retire_connection_id":
+                    out.append({"ev": "rcid", "ep": e["ep"], "seq": f["seq"]})
+        elif k == "inject" and e.get("frames") and e.get("accepted"):
+            dst = other(e["src"])
+            for f in e["frames"]:
+                if f["t"] == "new_connection_id":
+                    out.append({"ev": "ncid", "ep": dst, "seq": f["seq"], "rpt": f["rpt"], "cid": f["cid"]})
+        elif k == "pkt" and e.get("ok") and "frames" in e and e["type"] in ("1rtt", "handshake", "initial", "0rtt"):
+            out.append({"ev": "pkt", "ep": e["ep"], "dg": e["dg"], "dcid": e["dcid"],
+                        "retire": [f["seq"] for f in e["frames"] if f["t"] == "retire_connection_id"],
+                        "ncids": [[f["seq"], f["cid"]] for f in e["frames"] if f["t"] == "new_connection_id"]})
+        elif k == "net" and e["fate"] in ("deliver", "spoof") and e.get("dg"):
+            out.append({"ev": "deliv", "dg": e["dg"]})
+        elif k == "tx" and e["ep"] not in closed and (e["st"]["state"] in END_STATES or e["st0"]["state"] in END_STATES):
+            closed.add(e["ep"])
+            out.append({"ev": "closed", "ep": e["ep"]})
+        elif k == "ev" and e["cls"] == "ConnectionTerminated" and e["ep"] not in closed:
+            closed.add(e["ep"])
+            out.append({"ev": "closed", "ep": e["ep"]})
+        elif k == "end":
+            out.append({"ev": "end", "quiescent": e["quiescent"]})
+    return out
